@@ -25,6 +25,7 @@ type access struct {
 	fn, site, field string
 	write           bool
 	lock            string // "", "R", "W"
+	section         string // where the enclosing Lock()/RLock() call is ("" outside the lock)
 }
 
 func main() {
@@ -66,6 +67,7 @@ func main() {
 				recv = fd.Recv.List[0].Names[0].Name
 			}
 			lock := ""
+			section := ""
 			deferred := false // a deferred Unlock/RUnlock is pending: every return path releases
 			lhs := map[ast.Expr]bool{}
 			ast.Inspect(fd.Body, func(n ast.Node) bool {
@@ -92,11 +94,16 @@ func main() {
 								case "Lock":
 									lock = "W"
 									takesLock[fd.Name.Name] = true
+									lp := fset.Position(x.Pos())
+									section = fmt.Sprintf("%s:%d %s", filepath.Base(lp.Filename), lp.Line, fd.Name.Name)
 								case "RLock":
 									lock = "R"
 									takesLock[fd.Name.Name] = true
+									lp := fset.Position(x.Pos())
+									section = fmt.Sprintf("%s:%d %s", filepath.Base(lp.Filename), lp.Line, fd.Name.Name)
 								case "Unlock", "RUnlock":
 									lock = ""
+									section = ""
 								}
 							}
 						}
@@ -114,7 +121,7 @@ func main() {
 				case *ast.SelectorExpr:
 					if id, ok := x.X.(*ast.Ident); ok && id.Name == recv && (tables[x.Sel.Name] || x.Sel.Name == "Services") {
 						p := fset.Position(x.Pos())
-						accs = append(accs, access{fn: fd.Name.Name, site: fmt.Sprintf("%s:%d", filepath.Base(p.Filename), p.Line), field: x.Sel.Name, write: lhs[x], lock: lock})
+						accs = append(accs, access{fn: fd.Name.Name, site: fmt.Sprintf("%s:%d", filepath.Base(p.Filename), p.Line), field: x.Sel.Name, write: lhs[x], lock: lock, section: section})
 					}
 				}
 				return true
@@ -144,10 +151,11 @@ func main() {
 		}
 		return "false"
 	}
-	var tw, tre, tro, sw, sr []string
+	var tw, tre, tro, sw, sr, tws []string
 	for _, a := range accs {
 		switch {
 		case tables[a.field] && a.write:
+			tws = append(tws, q(a.section))
 			tw = append(tw, fmt.Sprintf("(%s, %s)", q(a.site+" "+a.fn+" "+a.field), b(a.lock == "W")))
 		case tables[a.field] && a.fn == "ExecuteQuery":
 			tre = append(tre, fmt.Sprintf("(%s, %s)", q(a.site+" "+a.field), b(a.lock == "R" || a.lock == "W")))
@@ -165,6 +173,8 @@ func main() {
 		"   sits inside s.mutex.Lock (writes) or s.mutex.RLock/Lock (reads), in source order. *)\n" +
 		"From Coq Require Import List String Bool.\nImport ListNotations.\nOpen Scope string_scope.\n\n" +
 		"Definition table_writes : list (string * bool) :=\n  " + l(tw) + ".\n" +
+		"(* the critical section (position of its Lock call) each of these writes sits in *)\n" +
+		"Definition table_write_sections : list string :=\n  " + l(tws) + ".\n" +
 		"Definition table_reads_in_execute : list (string * bool) :=\n  " + l(tre) + ".\n" +
 		"Definition table_reads_elsewhere : list (string * bool) :=\n  " + l(tro) + ".\n" +
 		"Definition service_map_writes : list (string * bool) :=\n  " + l(sw) + ".\n" +
